@@ -23,7 +23,7 @@ type PropDef struct {
 	Skip []string
 }
 
-var graphSetPosts = []string{"C09:add:", "C09:union:", "C10:", "C08:add:", "C08:union:", "C08:intersect:", "C08:remove:", "C12:copy:", "C08:indexNodes:", "C08:indexRoots:", "C08:idx", "C15:", "C12:inv", "C03:inv", "C01:inv", "C16:inv", "C16:roots:", "C16:purlType:", "C08:inv", "C09:inv", "C10:inv", "C08:cleanEdges:closedFrom", "C08:cleanEdges:closedTo", "C08:cleanEdges:oneEdgePerSourceAndType", "C08:cleanEdges:noRepeatedTargets"}
+var graphSetPosts = []string{"C09:add:", "C09:union:", "C10:", "C08:add:", "C08:union:", "C08:intersect:", "C08:remove:", "C12:copy:", "C08:indexNodes:", "C08:indexRoots:", "C08:idx", "C15:", "C12:inv", "C03:inv", "C01:inv", "C16:inv", "C16:roots:", "C16:purlType:", "C16:match:", "C16:hashIndex:", "C16:purlIndex:", "C08:inv", "C09:inv", "C10:inv", "C08:cleanEdges:closedFrom", "C08:cleanEdges:closedTo", "C08:cleanEdges:oneEdgePerSourceAndType", "C08:cleanEdges:noRepeatedTargets"}
 
 var propDefs = map[string]PropDef{
 	"C01": {Classes: []string{"TABLE", "LEMMA", "POST", "INV", "PRE"}, Level: "proof"},
@@ -41,7 +41,7 @@ var propDefs = map[string]PropDef{
 	"C13": {Classes: []string{"POST", "LEMMA", "PRE", "INV", "READS"}, Level: "proof"},
 	"C14": {Classes: []string{"POST", "INV", "PRE", "LEMMA", "READS"}, Level: "proof", Skip: graphSetPosts},
 	"C15": {Classes: []string{"SAFE", "POST", "INV", "PRE", "LEMMA"}, Level: "proof"},
-	"C16": {Classes: []string{"POST", "INV", "PRE", "LEMMA"}, Level: "proof", Skip: without(graphSetPosts, "C16:inv", "C16:roots:", "C16:purlType:")},
+	"C16": {Classes: []string{"POST", "INV", "PRE", "LEMMA"}, Level: "proof", Skip: without(graphSetPosts, "C16:inv", "C16:roots:", "C16:purlType:", "C16:match:", "C16:hashIndex:", "C16:purlIndex:")},
 	"C17": {Classes: []string{"LOCK"}, Level: "proof"},
 	"C18": {Classes: []string{"FRAME", "POST", "PRE", "OWN", "LEMMA"}, Level: "proof"},
 	"C19": {Classes: []string{"SAFE", "POST", "PRE", "TRACE", "LEMMA"}, Level: "proof"},
